@@ -191,4 +191,16 @@ CHECKS = {
         'technique': 'exhaustive enumeration of call histories + property-based testing (Hypothesis, operation lists); '
                      'reference state machine and fresh-instance differential; state snapshots',
     },
+    'C08': {
+        'text': 'Exhaustive small alternative tuples (TableGrader n<=3(4) over credit x message x wrong_msg in every '
+                'order; StringGrader n<=2(3)) and Hypothesis alternatives (1-6, single and tuple-valued expects, '
+                'credits incl. 0, messages of varied/equal length, wrong_msg) for String, Formula, Numerical, Matrix, '
+                'SingleList and table graders, stand-alone and as subgraders of ordered ListGraders and '
+                'SingleListGraders, in every order for <= 4 alternatives (24 sampled orders otherwise), judged '
+                'differentially against single-alternative graders.',
+        'note': 'Sampling graders get sample-robust inputs only and a pinned seed; ties are identical computed '
+                'credits; LinearComparer alternatives use an absolute tolerance.',
+        'technique': 'exhaustive enumeration + property-based testing (Hypothesis); differential against '
+                     'single-alternative graders; metamorphic order independence',
+    },
 }
